@@ -11,9 +11,9 @@ import (
 	"testing"
 	"time"
 
+	sdk "github.com/cosmos/cosmos-sdk/types"
 	"github.com/ethereum/go-ethereum/common"
 	"github.com/ethereum/go-ethereum/core/types"
-	sdk "github.com/cosmos/cosmos-sdk/types"
 
 	clienttypes "github.com/bianjieai/tibc-go/modules/tibc/core/02-client/types"
 	ethtypes "github.com/bianjieai/tibc-go/modules/tibc/light-clients/09-eth/types"
@@ -46,7 +46,9 @@ func recordedEth(rec *mon.Recorder) []*types.Header {
 	var hs []*ethtypes.EthHeader
 	bz, err := os.ReadFile("/repo/modules/tibc/light-clients/09-eth/types/testdata/update_headers.json")
 	if err != nil || json.Unmarshal(bz, &hs) != nil || len(hs) < 5 {
-		rec.Inconclusive("cannot read recorded ETH headers")
+		if rec != nil {
+			rec.Inconclusive("cannot read recorded ETH headers")
+		}
 		return nil
 	}
 	var out []*types.Header
@@ -195,8 +197,14 @@ type ethPert struct {
 
 var c18Perts = []ethPert{
 	{"unknown-parent", func(h, p *types.Header, rng *rand.Rand, now *int64) bool { h.ParentHash[0] ^= 1; return true }},
-	{"number+1", func(h, p *types.Header, rng *rand.Rand, now *int64) bool { h.Number = new(big.Int).Add(h.Number, big.NewInt(1)); return true }},
-	{"number-1", func(h, p *types.Header, rng *rand.Rand, now *int64) bool { h.Number = new(big.Int).Sub(h.Number, big.NewInt(1)); return true }},
+	{"number+1", func(h, p *types.Header, rng *rand.Rand, now *int64) bool {
+		h.Number = new(big.Int).Add(h.Number, big.NewInt(1))
+		return true
+	}},
+	{"number-1", func(h, p *types.Header, rng *rand.Rand, now *int64) bool {
+		h.Number = new(big.Int).Sub(h.Number, big.NewInt(1))
+		return true
+	}},
 	{"time-equals-parent", func(h, p *types.Header, rng *rand.Rand, now *int64) bool {
 		h.Time = p.Time
 		h.Difficulty = model.ExpectedDifficulty(h.Time, p)
@@ -209,7 +217,10 @@ var c18Perts = []ethPert{
 	}},
 	{"time-at-15s-ahead", func(h, p *types.Header, rng *rand.Rand, now *int64) bool { *now = int64(h.Time) - 15; return true }},
 	{"time-16s-ahead", func(h, p *types.Header, rng *rand.Rand, now *int64) bool { *now = int64(h.Time) - 16; return true }},
-	{"gas-limit-at-upper-bound", func(h, p *types.Header, rng *rand.Rand, now *int64) bool { h.GasLimit = p.GasLimit + p.GasLimit/1024; return true }},
+	{"gas-limit-at-upper-bound", func(h, p *types.Header, rng *rand.Rand, now *int64) bool {
+		h.GasLimit = p.GasLimit + p.GasLimit/1024
+		return true
+	}},
 	{"gas-limit-just-inside-upper-bound", func(h, p *types.Header, rng *rand.Rand, now *int64) bool {
 		h.GasLimit = p.GasLimit + p.GasLimit/1024 - 1
 		return true
@@ -222,7 +233,10 @@ var c18Perts = []ethPert{
 		return true
 	}},
 	{"gas-used-above-limit", func(h, p *types.Header, rng *rand.Rand, now *int64) bool { h.GasUsed = h.GasLimit + 1; return true }},
-	{"base-fee+1", func(h, p *types.Header, rng *rand.Rand, now *int64) bool { h.BaseFee = new(big.Int).Add(h.BaseFee, big.NewInt(1)); return true }},
+	{"base-fee+1", func(h, p *types.Header, rng *rand.Rand, now *int64) bool {
+		h.BaseFee = new(big.Int).Add(h.BaseFee, big.NewInt(1))
+		return true
+	}},
 	{"base-fee-1", func(h, p *types.Header, rng *rand.Rand, now *int64) bool {
 		if h.BaseFee.Sign() == 0 {
 			return false
@@ -230,8 +244,14 @@ var c18Perts = []ethPert{
 		h.BaseFee = new(big.Int).Sub(h.BaseFee, big.NewInt(1))
 		return true
 	}},
-	{"difficulty+1", func(h, p *types.Header, rng *rand.Rand, now *int64) bool { h.Difficulty = new(big.Int).Add(h.Difficulty, big.NewInt(1)); return true }},
-	{"difficulty-1", func(h, p *types.Header, rng *rand.Rand, now *int64) bool { h.Difficulty = new(big.Int).Sub(h.Difficulty, big.NewInt(1)); return true }},
+	{"difficulty+1", func(h, p *types.Header, rng *rand.Rand, now *int64) bool {
+		h.Difficulty = new(big.Int).Add(h.Difficulty, big.NewInt(1))
+		return true
+	}},
+	{"difficulty-1", func(h, p *types.Header, rng *rand.Rand, now *int64) bool {
+		h.Difficulty = new(big.Int).Sub(h.Difficulty, big.NewInt(1))
+		return true
+	}},
 	{"difficulty-for-other-time", func(h, p *types.Header, rng *rand.Rand, now *int64) bool {
 		h.Difficulty = model.ExpectedDifficulty(h.Time+40, p)
 		return h.Difficulty.Cmp(model.ExpectedDifficulty(h.Time, p)) != 0
